@@ -131,7 +131,8 @@ class Interp:
             if e == "*":
                 if isinstance(v, tuple) and v[0] == "ref":
                     _t, f2, l2, p2 = v
-                    return self._store(f2, l2, list(p2) + rest[i + 1:], val)
+                    # index locals belong to THIS frame: resolve them before switching to the pointee's frame
+                    return self._store(f2, l2, list(p2) + self._resolve_projs(cur_fr, rest[i + 1:]), val)
                 return  # store through unknown pointer: ignored (sound for our uses: values become stale only via known refs)
             last = (i == len(rest) - 1)
             if isinstance(e, dict) and "dc" in e:
@@ -152,8 +153,8 @@ class Interp:
                     cont[e["f"]] = val
                     return
                 v = cont[e["f"]]
-            elif isinstance(e, dict) and "i" in e:
-                idx = cur_fr.locals.get(e["i"], UNKNOWN)
+            elif isinstance(e, dict) and ("i" in e or ("ci" in e and not e.get("fe"))):
+                idx = cur_fr.locals.get(e["i"], UNKNOWN) if "i" in e else e["ci"]
                 if isinstance(v, tuple) and v[0] == "array" and isinstance(idx, int) and idx < len(v[1]):
                     if last:
                         v[1][idx] = val
@@ -280,6 +281,19 @@ class Interp:
             return UNKNOWN
         if base in ("Div", "Rem") and ty in INT_BITS:
             base = "I" + base      # integer division truncates: not a ring operation (never a rational-function quotient)
+        # exact constant folding with the float constants 0 and 1 (ring semantics; NaN/inf propagation is not modelled anywhere)
+        z, o = ("f", 0.0), ("f", 1.0)
+        if "WithOverflow" not in op:
+            if base == "Mul" and (a == z or b == z) and ty in ("f32", "f64"):
+                return z
+            if base == "Mul" and ty in ("f32", "f64") and (a == o or b == o):
+                return b if a == o else a
+            if base == "Add" and ty in ("f32", "f64") and (a == z or b == z):
+                return b if a == z else a
+            if base == "Sub" and ty in ("f32", "f64") and b == z:
+                return a
+            if base == "Div" and ty in ("f32", "f64") and (a == z or b == o) and b != z:
+                return a
         v = ("symop", base, a, b)
         if "WithOverflow" in op:
             return ("tuple", [v, 0])
@@ -332,6 +346,8 @@ class Interp:
                 if isinstance(t, tuple) and t[0] == "array":
                     return len(t[1])
                 return UNKNOWN
+            if rv["op"] == "Neg" and isinstance(v, tuple) and v[0] == "f":
+                return ("f", -v[1])
             if is_sym(v) or (isinstance(v, tuple) and v[0] == "f"):
                 return ("symop", rv["op"], v, None)
             return UNKNOWN
@@ -355,6 +371,8 @@ class Interp:
         if k == "Repeat":
             v = self.operand(fr, rv["a"])
             n = rv.get("n")
+            if not isinstance(n, int) and isinstance(fr.env.get(rv.get("ns")), int):
+                n = fr.env[rv["ns"]]            # `[x; N]` with the const generic bound in this instantiation
             if isinstance(n, int) and n <= 4096:
                 return ("array", [copy_val(v) for _ in range(n)])
             return UNKNOWN
@@ -723,6 +741,18 @@ def m_unwrap_or(it, args, callee, depth):
     return args[1] if o[2] == "None" else o[3][0]
 
 
+def m_unwrap(it, args, callee, depth):
+    p = (callee or {}).get("path", "")
+    if not p.endswith(("Option::<T>::unwrap", "Option::<T>::expect")):
+        return NotImplemented
+    o = deref_all(it, args[0])
+    if not (isinstance(o, tuple) and o[0] == "adt"):
+        raise Undecided("unwrap on undecided option")
+    if o[2] == "None":
+        raise Panic("unwrap on None")
+    return o[3][0]
+
+
 def m_reverse(it, args, callee, depth):
     o = deref_all(it, args[0])
     if isinstance(o, tuple) and o[0] == "adt" and o[1] == "core::cmp::Ordering":
@@ -827,6 +857,8 @@ STD_MODELS = [
     ("Option::<T>::is_some_and", m_is_some_and),
     ("Option::<T>::is_none_or", m_is_none_or),
     ("Option::<T>::unwrap_or", m_unwrap_or),
+    ("Option::<T>::unwrap", m_unwrap),
+    ("Option::<T>::expect", m_unwrap),
     ("Option::<T>::is_some", m_is_some),
     ("Option::<T>::is_none", m_is_none),
     ("core::cmp::Ordering::reverse", m_reverse),
